@@ -194,7 +194,7 @@ class TornadoEventLoop(EventLoop):
                 return f(*args, **kwargs)
             except ExitMainLoop:
                 pass  # handled later
-            except Exception as exc:
+            except BaseException as exc:  # asyncio would log and drop what is not an Exception
                 self._exc = exc
 
             if self._idle_asyncio_handle:
